@@ -245,7 +245,7 @@ def generate(ctx):
 
     # (MC) exhaustive design models; their behaviours are the documents.  (GEN) random walks of the same
     # machine far beyond the exhaustive bound.  The three TLC jobs run side by side.
-    nsim = 1500 if quick else 40000
+    nsim = 1500 if quick else 32000
     nproc = 1 if quick else min(8, vlib.JOBS)
 
     def mc(module, cfg, workers, heap):
@@ -309,7 +309,8 @@ def generate(ctx):
             continue
         if not e['holds']:
             raise vlib.Infra('design counterexample outside the known constructs: %r' % bytes(e['in']))
-        for keep in ((False,) if quick else (False, True)):
+        # the attribute branch does not look at KeepWhitespace: the other setting gets a fixed 1/8 sample
+        for keep in ((False, True) if sum(e['in']) % 8 == 0 else (False,)):
             if add(keep, e['in'], 'attr', e['out']):
                 stats['attr_docs'] += 1
         b = bytes(e['in'])
@@ -323,7 +324,7 @@ def generate(ctx):
     del outs
     t0 = time.time()
     # the same token streams with richer spelling
-    ndec = 6000 if quick else 120000
+    ndec = 6000 if quick else 100000
     for i in range(ndec):
         keep, tk = pool_tk[ctx.rnd.randrange(len(pool_tk))]
         doc = decorate(tk, ctx.rnd, attr_pool)
@@ -500,7 +501,7 @@ def run(ctx):
         exhaustive_bound='XmlMachine: all well-formed token streams with <= %d tokens over %d token kinds x KeepWhitespace%s; '
                          'XmlAttr: all values with <= %d items over %d items x 2 quote kinds%s'
                          % ((5, 18, '', 3, 22, '') if ctx.quick() else
-                            (6, 29, ' (model-checked completely; of the 6-token streams a fixed 1/4 is also executed on the real code)',
+                            (6, 22, ' (model-checked completely; of the 6-token streams a fixed 1/4 is also executed on the real code)',
                              4, 28, ' (same)')),
     ))
     ctx.assumptions += [
